@@ -164,6 +164,10 @@ theorem setOctets_t4_bridge (v : T4.Variant) (c : T4.Card) (data : Bytes) :
       · simp [hw, hc]
       · simp [hw, hc, Except.map]
 
+/-- `ndef.records`: decoded from / encoded into the `octets` PROPERTY - the setter assigns to `self.octets`, so a list of
+records is written through the checked setter above (the ndeflib encoder / decoder is a parameter) -/
+theorem ndef_records_bridge (o e : Bytes) (v : Int) : tb_ndef_records_get o = o ∧ tb_ndef_records_set v e = e := ⟨rfl, rfl⟩
+
 /-! ## `Tag`: the NDEF cache and its wrappers -/
 
 /-- `Tag.ndef`, the generated text: a cached object is handed out as it is; otherwise a new `NDEF` object is kept
